@@ -4,6 +4,7 @@ from __future__ import annotations
 import itertools
 import json
 import os
+from copy import deepcopy
 import shutil
 import tempfile
 import uuid
@@ -123,14 +124,86 @@ class InputFileRoundTrip(Contract):
     symbolic = False
     has_native = True
     props = ("C14",)
-    bounded_scope = "template forms (bool, integer, float incl. +-inf, string, choice, multi-choice, file, object, data, data-or-value, optional/disabled variants, range) x value corpus x {default options, update_enabled=False}; written, read back, values and enabled states compared; promote/demote of uids on a real workspace"
+    bounded_scope = "template forms (bool, integer, float incl. +-inf, string, choice, multi-choice, file, object, data, data-or-value, optional/disabled variants, range) x value corpus x {default options, update_enabled=False}; written, read back, values and enabled states compared; promote/demote of uids on a real workspace; file names with dots in the stem; values assigned to members of optional groups (switch optional or not, before or after its members)"
 
     def native_cases(self, tier, rng):
         for opts in ({}, {"update_enabled": False}):
             for touch_data in (False, True):
-                yield {"options": opts, "touch_data": touch_data}
+                for name in ("t.ui.json", "inversion_v1.2.ui.json"):
+                    yield {"options": opts, "touch_data": touch_data, "name": name}
+        # values assigned to the members of optional groups (switch itself optional or not, listed before or after its members)
+        for switch_optional in (True, False):
+            for switch_first in (True, False):
+                # the switch is always given a value too: members of a group whose switch stays disabled are
+                # disabled parameters and read back as None by the format's own rule
+                for assign_switch in (True,):
+                    yield {"kind": "groups", "switch_optional": switch_optional, "switch_first": switch_first, "assign_switch": assign_switch, "name": "groups v2.1.ui.json"}
+
+    def _groups(self, case):
+        from geoh5py.objects import Points
+        from geoh5py.ui_json import InputFile, templates
+        from geoh5py.ui_json.constants import default_ui_json
+        from geoh5py.workspace import Workspace
+
+        d = tempfile.mkdtemp()
+        try:
+            with Workspace.create(os.path.join(d, "g.geoh5")) as ws:
+                Points.create(ws, vertices=np.zeros((3, 3)), name="pts")
+                ui = deepcopy(default_ui_json)
+                ui["geoh5"] = ws
+                ui["plain_int"] = templates.integer_parameter(value=3)
+                ui["plain_opt"] = templates.string_parameter(value="abc", optional="disabled")
+                sw = templates.choice_string_parameter(value="Option A", optional="disabled") if case["switch_optional"] else templates.choice_string_parameter(value="Option A")
+                sw.update({"group": "Detrending", "groupOptional": True, "enabled": False})
+                members = {"order": templates.integer_parameter(value=1), "weight": templates.float_parameter(value=0.5)}
+                for m in members.values():
+                    m.update({"group": "Detrending", "enabled": False})
+                if case["switch_first"]:
+                    ui["switch"] = sw
+                    ui.update(members)
+                else:
+                    ui.update(members)
+                    ui["switch"] = sw
+                ifile = InputFile(ui_json=ui)
+                data = dict(ifile.data)
+                new = {"order": 2, "weight": 0.25, "plain_int": 7}
+                if case["assign_switch"]:
+                    new["switch"] = "Option B"
+                data.update(new)
+                ifile.data = data
+                expected = {k: v for k, v in ifile.data.items() if k != "geoh5"}
+                enabled_before = {k: f.get("enabled", True) for k, f in ifile.ui_json.items() if isinstance(f, dict) and "label" in f}
+                out = ifile.write_ui_json(name=case["name"], path=d)
+            try:
+                back = InputFile.read_ui_json(out)
+            except Exception as exc:
+                return f"reading back the file that was just written fails: {type(exc).__name__}: {exc} ({case})"
+            try:
+                for k, v in expected.items():
+                    if back.data[k] != v:
+                        return f"'{k}': wrote {v!r}, read back {back.data[k]!r} ({case})"
+                for k, st in enabled_before.items():
+                    if bool(back.ui_json[k].get("enabled", True)) != bool(st):
+                        return f"enabled state of '{k}': {st} before writing, {back.ui_json[k].get('enabled', True)} after reading back ({case})"
+                if case["assign_switch"]:
+                    for k in new:
+                        if not back.ui_json[k].get("enabled", True):
+                            return f"'{k}' was given the value {new[k]!r} but is disabled in the file ({case})"
+                if back.data["plain_opt"] is not None or back.ui_json["plain_opt"]["enabled"]:
+                    return f"the disabled optional parameter did not stay None/disabled ({case})"
+            finally:
+                if back.geoh5 is not None:
+                    try:
+                        back.geoh5.close()
+                    except Exception:
+                        pass
+        finally:
+            shutil.rmtree(d, ignore_errors=True)
+        return None
 
     def native_check(self, case):
+        if case.get("kind") == "groups":
+            return self._groups(case)
         from geoh5py.objects import Points
         from geoh5py.ui_json import InputFile, templates
         from geoh5py.ui_json.constants import default_ui_json
@@ -162,8 +235,11 @@ class InputFileRoundTrip(Contract):
                     _ = ifile.data
                 before_enabled = {k: v.get("enabled", True) for k, v in ifile.ui_json.items() if isinstance(v, dict)}
                 before_vals = {k: (v.get("value") if v.get("isValue", True) else v.get("property")) for k, v in ifile.ui_json.items() if isinstance(v, dict)}
-                ifile.write_ui_json(name="t.ui.json", path=d)
-            back = InputFile.read_ui_json(os.path.join(d, "t.ui.json"), validate=False)
+                ifile.write_ui_json(name=case.get("name", "t.ui.json"), path=d)
+            try:
+                back = InputFile.read_ui_json(os.path.join(d, case.get("name", "t.ui.json")), validate=False)
+            except Exception as exc:
+                return f"reading back the file that was just written fails: {type(exc).__name__}: {exc} ({case})"
             ui2 = back.ui_json
             for k, exp_en in before_enabled.items():
                 en2 = ui2[k].get("enabled", True)
